@@ -13,7 +13,7 @@ LEVEL = "exploration"
 RULE = (
     "every data length n in 32..135 (quick) / 32..300 (thorough) x kind in {boxcar, gaussian, lorentzian} x bank (nbins_max in {4,8,16} x "
     "spacing in {1.5,2}) that fits: (a) every response convs[k,t] (all templates, all bins) == <z, m_k,t> in float64; (b) snr/peak_bin/"
-    "best_temp == max/argmax of convs; (c) invariance under x -> a*x+b for 6 maps; (d) for lengths in a sub-grid, a noiseless boxcar of "
+    "best_temp == max/argmax of convs; (c) invariance under x -> a*x+b for 6 maps and 3 maps whose baseline is 1e5..1e6 times the noise; (a,b) again at lengths 8209 and 10007 (thorough: up to 65537) against a float64 FFT evaluation of the same sums; (d) for lengths in a sub-grid, a noiseless boxcar of "
     "every bank width at EVERY start bin 0..n-1 (wrapping) is recovered at its start bin with its width, and a noiseless gaussian / "
     "lorentzian pulse of every bank width (built from the formula) at every third bin is recovered at its peak bin with its width. Non-trivial = response sets at "
     "lengths that are not FFT-good sizes, argmax cases whose best template is not the first, every affine map, every direct kernel call with "
@@ -25,7 +25,7 @@ ASSUMPTIONS = [
     "banks whose largest template does not fit the data (library raises ValueError) are out of scope and counted",
     "the boxcar bank is stated independently as the ladder 1, max(w+1, floor(spacing*w)), ... up to and including nbins_max (the documented meaning of nbins_max)",
 ]
-REQUIRED_OUTCOMES = ["responses/ok", "responses/non_good_length", "argmax/ok", "affine/ok", "boxcar_recovery/ok", "peak_recovery/ok"]
+REQUIRED_OUTCOMES = ["responses/ok", "responses/non_good_length", "argmax/ok", "affine/ok", "boxcar_recovery/ok", "peak_recovery/ok", "responses/long_ok", "affine/large_baseline_ok"]
 
 EPS32 = float(np.finfo(np.float32).eps)
 KINDS = ["boxcar", "gaussian", "lorentzian"]
@@ -46,6 +46,9 @@ def shards(tier: str, seed: int) -> list:
         out.append({"kind": "responses", "lo": a, "hi": min(hi, a + step - 1)})
     for n in b["recovery_lengths"]:
         out.append({"kind": "recovery", "n": n})
+    # scale lane: data lengths beyond 8192 bins that are not FFT-friendly (a fast path or padding chosen above a size would show here)
+    for n in ((8209, 10007) if tier == "quick" else (4099, 8209, 10007, 16411, 20011, 65537)):
+        out.append({"kind": "long", "n": n})
     return out
 
 
@@ -73,8 +76,60 @@ def _data(n, seed, variant=0):
 def run_shard(shard: dict, ctx, res, only=None) -> None:
     if shard["kind"] == "responses":
         _responses(shard, ctx, res, only)
+    elif shard["kind"] == "long":
+        _long(shard, ctx, res, only)
     else:
         _recovery(shard, ctx, res, only)
+
+
+def _ref_fft(bank, z, n):
+    """<z, roll(m_k, t)> for all t through a float64 FFT of length n (circular cross-correlation); checked against the direct sums below."""
+    Z = np.fft.fft(z)
+    return np.stack([np.fft.ifft(Z * np.conj(np.fft.fft(_model(t, n, 0)))).real for t in bank])
+
+
+def _long(shard, ctx, res, only):
+    from sigpyproc.core.filters import MatchedFilter
+
+    n = shard["n"]
+    x = _data(n, ctx.seed)
+    # the FFT reference is first validated against the direct sums on a short array
+    xs = _data(45, ctx.seed)
+    mfs = MatchedFilter(xs, temp_kind="gaussian", nbins_max=8, spacing_factor=1.5)
+    zs = np.asarray(mfs.zscores.data, dtype=np.float64)
+    idx = (np.arange(45)[None, :] - np.arange(45)[:, None]) % 45
+    direct = np.stack([(_model(t, 45, 0)[idx] * zs[None, :]).sum(1) for t in mfs.temp_bank])
+    if not np.allclose(_ref_fft(mfs.temp_bank, zs, 45), direct, rtol=0, atol=1e-10):
+        res.evaluations += 1
+        res.violation({"site": "harness", "symptom": "FFT reference != direct sums"}, {"shard": shard, "inner": None}, "")
+        return
+    for kind in KINDS:
+        for nbmax, spacing in ((16, 1.5), (8, 2.0)):
+            if only is not None and [kind, nbmax, spacing] != only:
+                continue
+            case = {"shard": shard, "inner": [kind, nbmax, spacing]}
+            res.evaluations += 1
+            try:
+                mf = MatchedFilter(x, temp_kind=kind, nbins_max=nbmax, spacing_factor=spacing)
+            except Exception as e:  # noqa: BLE001
+                res.violation({"site": "MatchedFilter", "symptom": f"raised {type(e).__name__}", "good_length": False}, case, f"n={n}: {e!r}")
+                continue
+            z = np.asarray(mf.zscores.data, dtype=np.float64)
+            convs = np.asarray(mf.convs, dtype=np.float64)
+            ref = _ref_fft(mf.temp_bank, z, n)
+            lim = 32 * EPS32 * np.log2(n) * max(float(np.linalg.norm(z)), 1e-30)
+            dev = float(np.max(np.abs(convs - ref))) if convs.shape == ref.shape else float("inf")
+            res.maximum("response_dev_over_limit_long", dev / lim)
+            if not (dev <= lim):
+                res.violation({"site": "MatchedFilter.convs", "symptom": "response differs from the normalised template correlation", "good_length": False}, case,
+                              f"n={n} kind={kind}: max dev {dev:.3e}, limit {lim:.3e}")
+                continue
+            k, t = np.unravel_index(int(np.argmax(np.asarray(mf.convs))), mf.convs.shape)
+            if mf.peak_bin != t or mf.best_temp is not mf.temp_bank[k] or float(mf.snr) != float(np.asarray(mf.convs)[k, t]):
+                res.violation({"site": "MatchedFilter", "symptom": "snr/peak_bin/best_temp are not the maximum of the responses"}, case, f"n={n}")
+                continue
+            res.outcome("responses/long_ok")
+            res.nontrivial += 1
 
 
 def _responses(shard, ctx, res, only):
@@ -119,7 +174,7 @@ def _responses(shard, ctx, res, only):
                     ref[k] = (m0[idx] * z[None, :]).sum(1)
                 dev = float(np.max(np.abs(convs - ref)))
                 res.maximum("response_dev_over_limit" + ("" if good else "_non_good"), dev / lim)
-                if not np.all(np.isfinite(convs)) or dev > lim:
+                if not np.all(np.isfinite(convs)) or not (dev <= lim):
                     k, t = np.unravel_index(int(np.argmax(np.abs(convs - ref))), convs.shape)
                     res.violation({"site": "MatchedFilter.convs", "symptom": "response differs from the normalised template correlation", "good_length": good}, case,
                                   f"n={n} kind={kind} template {k} (width {bank[k].width}) bin {t}: got {convs[k, t]:.6f} want {ref[k, t]:.6f} (max dev {dev:.3e}, limit {lim:.3e})")
@@ -167,6 +222,30 @@ def _responses(shard, ctx, res, only):
                         continue
                     res.outcome("affine/ok")
                     res.nontrivial += 1
+                # baselines 1e5..1e6 times the noise: the float32 data are first quantised at the baseline, the reference is the filter of the
+                # de-quantised data, so only the standardisation (not float32 resolution) is under test
+                for a, b in ((3.0, 2e6), (3e-3, 400.0), (1.0, -3e5)):
+                    if std == ("norm", "norm"):
+                        break
+                    res.evaluations += 1
+                    c2 = {"shard": shard, "inner": [n, kind, nbmax, spacing]}
+                    y = (np.float32(a) * x + np.float32(b)).astype(np.float32)
+                    xq = ((y.astype(np.float64) - b) / a).astype(np.float32)
+                    try:
+                        mfy = MatchedFilter(y, loc_method=std[0], scale_method=std[1], temp_kind=kind, nbins_max=nbmax, spacing_factor=spacing)
+                        mfq = MatchedFilter(xq, loc_method=std[0], scale_method=std[1], temp_kind=kind, nbins_max=nbmax, spacing_factor=spacing)
+                    except Exception as e:  # noqa: BLE001
+                        res.violation({"site": "MatchedFilter", "symptom": f"raised {type(e).__name__} on data with a large baseline"}, c2, repr(e))
+                        continue
+                    cq = np.asarray(mfq.convs, dtype=np.float64)
+                    d2 = float(np.max(np.abs(np.asarray(mfy.convs, dtype=np.float64) - cq)))
+                    scale = max(1.0, float(np.max(np.abs(cq))))
+                    res.maximum("affine_large_baseline_dev", d2 / scale)
+                    if not (d2 <= 1e-2 * scale):
+                        res.violation({"site": "MatchedFilter", "symptom": "result changes under a*x+b", "large_baseline": True}, c2,
+                                      f"n={n} kind={kind} a={a} b={b}: max response change {d2:.3e} (snr {float(mfq.snr):.3f} -> {float(mfy.snr):.3f})")
+                        continue
+                    res.outcome("affine/large_baseline_ok")
     # the kernel itself with banks in decreasing and mixed width order (MatchedFilter only builds increasing ones)
     from numba import typed
 
@@ -195,7 +274,7 @@ def _responses(shard, ctx, res, only):
                 idx = (np.arange(n)[None, :] - np.arange(n)[:, None]) % n
                 ref = np.stack([(_model(t, n, 0)[idx] * zz[None, :]).sum(1) for t in bank])
                 dev = float(np.max(np.abs(convs - ref)))
-                if convs.shape != ref.shape or dev > lim:
+                if convs.shape != ref.shape or not (dev <= lim):
                     k, t = np.unravel_index(int(np.argmax(np.abs(convs - ref))), ref.shape)
                     res.violation({"site": "kernels.convolve_templates", "symptom": "response differs from the normalised template correlation", "bank_order": oname}, case,
                                   f"n={n} kind={kind} widths {widths}: template {k} bin {t}: got {convs[k, t]:.6f} want {ref[k, t]:.6f}")
